@@ -38,41 +38,75 @@ ASSUMPTIONS = ["pandapower.auxiliary.get_indices maps every value through the lo
 TECHNIQUE = "schema derivation from create functions and component classes; guarded-access check over consumers of the reference map"
 
 
+def _validated_table(ix, f, c, p):
+    """the table in which a validator call checks the existence of parameter p (None when the call is no such validator)"""
+    if c.fn[0] == "x" and c.fn[1].rsplit(".", 1)[-1] in ("_check_element", "_check_multiple_elements"):
+        if len(c.args) >= 2 and c.args[1] == ("n", p):
+            if len(c.args) >= 3 and c.args[2][0] == "c":
+                return c.args[2][1]
+            for k_, v_ in c.kw:
+                if k_ == "element" and v_[0] == "c":
+                    return v_[1]
+        return None
+    if c.fn[0] == "f" and len(c.args) >= 2 and c.args[1] == ("n", p):
+        # a validator of the package: the table its own body hands to pandapower's existence check for this argument
+        try:
+            g = ix.func(c.fn[1])
+        except AnalysisError:
+            return None
+        gp = g.params()
+        if len(gp) < 2:
+            return None
+        rg = ANF(ix, g).run()
+        for c2 in rg.calls():
+            t = _validated_table(ix, g, c2, gp[1])
+            if t is not None:
+                return t
+    return None
+
+
 def polymorphic_columns(ix):
-    """{(table, column): (discriminator column, junction value, {value: table})} derived from the create functions"""
+    """{(table, column): (discriminator column, junction value, {value: table})} derived from the create functions: a column written
+    from a parameter whose existence is validated against different tables under different values of another written parameter"""
     out = {}
     from .c16 import create_functions, written_columns
+    from ..arrnf import norm_cond
     for f in create_functions(ix):
         try:
             table, cols, wcall = written_columns(f)
         except AnalysisError:
             continue
         params = set(f.params())
-        par = parents(f.node)
-        for col, v in cols.items():
-            if not (isinstance(v, ast.Name) and v.id in params):
-                continue
-            p = v.id
+        cand = {col: v.id for col, v in cols.items() if isinstance(v, ast.Name) and v.id in params}
+        if len(cand) < 2:
+            continue
+        col_of_param = {pn: col for col, pn in cand.items()}
+        try:
+            r = ANF(ix, f, param_alias={f.params()[0]: "net"}).run()
+        except AnalysisError:
+            continue
+        for col, p in cand.items():
             targets = {}
-            for n in ast.walk(f.node):
-                tbl = None
-                if isinstance(n, ast.Call) and callee_name(n) in ("_check_element", "_check_multiple_elements") and len(n.args) >= 2 \
-                        and U(n.args[1]) == p:
-                    for k in n.keywords:
-                        if k.arg == "element" and const_str(k.value):
-                            tbl = const_str(k.value)
-                    if tbl is None and len(n.args) >= 3 and const_str(n.args[2]):
-                        tbl = const_str(n.args[2])
-                elif isinstance(n, ast.Compare) and U(n.left) == p and isinstance(n.ops[0], ast.NotIn) and ".index" in U(n.comparators[0]):
-                    tbl = "pipe" if "pipe" in U(n.comparators[0]) or "elm_tab" in U(n.comparators[0]) else None
-                if tbl is None:
-                    continue
-                pc = path_condition(f.node, n, par)
-                for lit, pol in pc:
-                    s = lit.replace(" ", "").replace('"', "'")
-                    if pol and "=='" in s:
-                        dcol, val = s.split("==")
-                        targets[val.strip("'")] = (dcol, tbl)
+            sites = []
+            for c in r.calls():
+                t = _validated_table(ix, f, c, p)
+                if t is not None:
+                    sites.append((t, c.cond))
+            for e in r.raises():
+                # raise under `p not in net[<T>].index`
+                for c_, pol in e.cond:
+                    c2, p2 = norm_cond(c_, pol)
+                    neg = (c2[0] == "cmp" and c2[1] == "not in" and p2) or (c2[0] == "cmp" and c2[1] == "in" and not p2)
+                    if neg and c2[2] == ("n", p) and c2[3][0] == "attr" and c2[3][2] == "index" and c2[3][1][0] == "idx" \
+                            and c2[3][1][1] == ("n", "net") and c2[3][1][2][0][0] == "c":
+                        sites.append((c2[3][1][2][0][1], tuple(x for x in e.cond if x != (c_, pol))))
+            for tbl, cond in sites:
+                for c_, pol in cond:
+                    c2, p2 = norm_cond(c_, pol)
+                    if p2 and c2[0] == "cmp" and c2[1] == "==":
+                        for a_, b_ in ((c2[2], c2[3]), (c2[3], c2[2])):
+                            if a_[0] == "c" and isinstance(a_[1], str) and b_[0] == "n" and b_[1] in col_of_param and b_[1] != p:
+                                targets[a_[1]] = (col_of_param[b_[1]], tbl)
             if len({t for _, t in targets.values()}) >= 2:
                 dcols = {d for d, _ in targets.values()}
                 if len(dcols) == 1:
